@@ -5,7 +5,11 @@ correspondence: every parameter class/configuration x every raw value kind the p
                 a working directory: clean(v) and clean(clean(v)) of the real classes vs the model's `clean`
 oracles:        documented result type; only parameter errors (MPilotError) are raised; determinism; idempotence
                 (paths: under an absolute working directory); the raw argument and the program are left untouched; lists of 70-5000 items
-                mixing number kinds: every cleaned item is the item cleaned alone (value and type), also through a command file
+                mixing number kinds: every cleaned item is the item cleaned alone (value and type), also through a command file;
+                data arrays in every form numpy hands out (plain / masked without a mask array / with one / hard / shared / read-only / 0-d / the masked
+                constant / subclasses, up to millions of cells) come back in the form they had and are left in it - directly, as list items, as the stored
+                result of a finished producer; must-exist paths are judged against the disk and the current directory as they are at each cleaning
+                (histories of cleanings and file-system changes on one parameter object, the command classes' own included)
 """
 import copy
 import os
@@ -429,6 +433,453 @@ def documented_datatypes(ctx):
                 ctx.fail("%s: the already-clean value %r is not returned unchanged (%r)" % (label, t, r[:2]), {"parameter": label, "raw": repr(t)})
 
 
+# ---------------------------------------------------------------- data arrays: the form is part of the value
+
+FORMS_LIB = "mpverif_forms"
+FORMS_SRC = '''
+from mpilot import params
+from mpilot.commands import Command
+
+HOLD = {}     # result name -> the array the command hands out
+
+
+class Held(Command):
+    """a plug-in producer: hands out the array held for its result name"""
+    inputs = {}
+    output = params.DataParameter()
+
+    def execute(self, **kw):
+        return HOLD[self.result_name]
+
+
+class HeldFuzzy(Held):
+    is_fuzzy = True
+    inputs = {}
+    output = params.DataParameter()
+
+
+class Peek(Command):
+    """a consumer that only looks: the number of cells it was given"""
+    inputs = {"In": params.ResultParameter(params.DataParameter()), "More": params.ListParameter(params.ResultParameter(params.DataParameter()), required=False)}
+    output = params.NumberParameter()
+
+    def execute(self, **kw):
+        return sum(c.result.size for c in [kw["In"]] + list(kw.get("More", [])))
+'''
+
+
+def forms_lib():
+    import sys, types
+    if FORMS_LIB not in sys.modules:
+        m = types.ModuleType(FORMS_LIB)
+        sys.modules[FORMS_LIB] = m
+        exec(compile(FORMS_SRC, FORMS_LIB, "exec"), m.__dict__)
+    return sys.modules[FORMS_LIB]
+
+
+def array_form(a):
+    """everything an observer can tell about an array without touching it: not only the values and which cells are missing (on which an array without a mask
+    array and one with an all-clear mask array agree) but the form - class, element type, layout, whether a mask array is there and which object it is,
+    hard / shared mask, fill value, what may be written"""
+    import hashlib
+    import numpy
+    nomask = numpy.ma.nomask
+    masked = isinstance(a, numpy.ma.MaskedArray)
+    m = a._mask if masked else None
+    plain = numpy.ndarray.view(a, numpy.ndarray)
+
+    def digest(x):
+        return hashlib.sha1(numpy.ascontiguousarray(x).tobytes()).hexdigest()[:12]
+    out = {"class": "%s.%s" % (type(a).__module__, type(a).__name__), "dtype": a.dtype.str, "shape": tuple(a.shape), "strides": tuple(a.strides),
+           "writeable": bool(a.flags.writeable), "values": digest(plain), "owner": id(a.base)}
+    if masked:
+        out.update({"mask array": "none (nomask)" if m is nomask else "object %d" % id(m), "mask": None if m is nomask else digest(m),
+                    "mask writeable": None if m is nomask else bool(m.flags.writeable), "hard mask": bool(a._hardmask), "shared mask": bool(a._sharedmask),
+                    "fill value": repr(a._fill_value)})
+    return out
+
+
+def same_form(x, y, identity=True):
+    """two snapshots agree (identity=False: up to which objects hold the cells and the mask - what a faithful copy may differ in)"""
+    def strip(f):
+        f = dict(f)
+        if not identity:
+            f.pop("owner", None)
+            f.pop("strides", None)
+            f.pop("shared mask", None)
+            if str(f.get("mask array", "")).startswith("object"):
+                f["mask array"] = "object"
+        return f
+    return strip(x) == strip(y)
+
+
+def form_diff(x, y):
+    return ", ".join("%s: %s -> %s" % (k, x.get(k), y.get(k)) for k in sorted(set(x) | set(y)) if x.get(k) != y.get(k))
+
+
+def array_forms(rng, thorough):
+    """(label, builder): builder() -> (the array, other arrays that own / share its cells or mask and must stay as they are too).  Built afresh for every use"""
+    import numpy
+    ma = numpy.ma
+
+    class Field(ma.MaskedArray):
+        """a plug-in's own masked-array class"""
+
+    class Grid(numpy.ndarray):
+        """a plug-in's own array class"""
+
+    def hard(a):
+        a.harden_mask()
+        return a
+
+    def frozen(a):
+        m = ma.getmask(a)
+        if m is not ma.nomask:
+            m.flags.writeable = False
+        a.flags.writeable = False
+        return a
+
+    def piece(a):
+        return (a[1:], [a])
+
+    def twin(a):
+        return (a.view(), [a])
+
+    def big(n, kind):
+        base = numpy.arange(n, dtype=float).reshape(-1, 100) / 7.0
+        if kind == "plain":
+            return base
+        if kind == "nomask":
+            return ma.array(base)
+        if kind == "clear":
+            return ma.array(base, mask=False)
+        return ma.array(base, mask=(numpy.arange(n).reshape(-1, 100) % 11 == 3))
+    forms = [
+        ("plain array", lambda: numpy.array([1.0, 2.0, 3.0])), ("plain 2-d integers", lambda: numpy.arange(6).reshape(2, 3)), ("plain booleans", lambda: numpy.array([True, False])),
+        ("plain 0-d", lambda: numpy.array(2.5)), ("plain, no cells", lambda: numpy.zeros((0,))), ("plain read-only", lambda: frozen(numpy.array([1.0, 2.0]))),
+        ("plain, every second cell of another", lambda: (lambda a: (a[::2], [a]))(numpy.arange(10.0))), ("plain, a plug-in's array class", lambda: numpy.arange(4.0).view(Grid)),
+        ("plain float32 in column order", lambda: numpy.asfortranarray(numpy.arange(6, dtype="f4").reshape(2, 3))),
+        ("masked, no mask array", lambda: ma.array([1.0, 2.0, 3.0])), ("masked 2-d integers, no mask array", lambda: ma.array([[1, 2], [3, 4]])),
+        ("result of arithmetic, no mask array", lambda: ma.array([1.0, 2.0]) * 2), ("masked float32, no mask array", lambda: ma.array([0.5, 0.25], dtype="f4")),
+        ("masked, all-clear mask array", lambda: ma.array([1.0, 2.0, 3.0], mask=False)), ("masked, some cells missing", lambda: ma.array([1.0, 2.0, 3.0], mask=[0, 1, 0])),
+        ("masked, every cell missing", lambda: ma.masked_all((3,))), ("masked_invalid", lambda: ma.masked_invalid([1.0, float("nan"), 3.0])),
+        ("masked_equal (fill value set)", lambda: ma.masked_equal([1, -9999, 3], -9999)), ("masked, own fill value, no mask array", lambda: ma.array([1.0, 2.0], fill_value=-9999.0)),
+        ("hard mask", lambda: hard(ma.array([1.0, 2.0, 3.0], mask=[0, 1, 0]))), ("hard mask, no mask array", lambda: hard(ma.array([1.0, 2.0, 3.0]))),
+        ("part of a masked array (shared mask)", lambda: piece(ma.array(numpy.arange(5.0), mask=[0, 1, 0, 0, 1]))), ("part of a masked array without mask array", lambda: piece(ma.array(numpy.arange(5.0)))),
+        ("second view of a masked array (same mask object)", lambda: twin(ma.array([1.0, 2.0, 3.0], mask=[0, 0, 1]))), ("second view of an array without mask array", lambda: twin(ma.array([1.0, 2.0, 3.0]))),
+        ("the masked constant", lambda: ma.masked), ("masked 0-d, no mask array", lambda: ma.array(3.5)), ("masked 0-d, missing", lambda: ma.array(3.5, mask=True)),
+        ("masked read-only, no mask array", lambda: frozen(ma.array([1.0, 2.0]))), ("masked read-only with mask array", lambda: frozen(ma.array([1.0, 2.0], mask=[0, 1]))),
+        ("a plug-in's masked-array class, no mask array", lambda: ma.array([1.0, 2.0]).view(Field)), ("a plug-in's masked-array class, mask array", lambda: ma.array([1.0, 2.0], mask=[1, 0]).view(Field)),
+        ("masked, no cells", lambda: ma.array([], dtype=float)), ("masked unsigned bytes, mask array", lambda: ma.array([1, 2, 3], dtype="u1", mask=[0, 0, 1])),
+    ]
+    # the same forms at the sizes of real grids (a change that only touches large arrays, or small ones, is a change)
+    sizes = [10 ** 4, 10 ** 6, 2500000] + ([4 * 10 ** 6] if thorough else [])
+    large = [("%s of %d cells" % (label, n), (lambda n=n, kind=kind: big(n, kind))) for n in sizes
+             for kind, label in (("plain", "plain"), ("nomask", "masked, no mask array"), ("clear", "masked, all-clear mask array"), ("some", "masked, some cells missing"))]
+    return forms, large
+
+
+def data_forms(ctx):
+    """a data array is clean as it is: whatever its form, cleaning hands it back in that form and leaves it - and whatever shares its cells or mask - exactly as
+    it was; as a raw value of the Data kind (fresh parameter objects and the ones the command classes carry), as a list item, and as the stored result of a
+    finished producer referenced by name / by object / through a list, and when Program.run validates a second consumer after the producer has finished"""
+    import numpy
+    from mpilot import params as P
+    from mpilot.commands import Command
+    from mpilot.program import Program
+    lib = forms_lib()
+    rng = ctx.rng
+    forms, large = array_forms(rng, ctx.thorough)
+
+    def unpack(built):
+        value, owners = built if isinstance(built, tuple) else (built, [])
+        for x in [value] + owners:
+            if isinstance(x, numpy.ma.MaskedArray) and x is not numpy.ma.masked:
+                x.fill_value        # numpy works out the default fill value when it is first asked for and keeps it: asked for now, so that printing the array later is no change
+        return value, owners
+    # --- the Data kind itself (and kinds that take any value)
+    subjects = [("Data", P.DataParameter(), False), ("Parameter", P.Parameter(), False), ("List(Data)", P.ListParameter(P.DataParameter()), True), ("List", P.ListParameter(), True)]
+    seen = set()
+    import mpilot.libraries.eems.basic, mpilot.libraries.eems.fuzzy, mpilot.libraries.eems.csv.io       # noqa
+    prog.testlib()
+    for info in sorted(Command.get_commands(), key=lambda i: (i.module, i.command.__name__)):
+        cls = info.command
+        cands = [("output of %s" % cls.name, cls.output)]
+        for n, q in cls.inputs.items():
+            while type(q) is P.ListParameter:
+                q = q.value_type
+            if type(q) is P.ResultParameter:
+                cands.append(("wanted by %s.%s" % (cls.name, n), q.output_type))
+        for label, q in cands:
+            if type(q) is P.DataParameter and id(q) not in seen:
+                seen.add(id(q))
+                subjects.append(("Data (%s, %s)" % (label, cls.__module__), q, False))
+    program = make_program(None)
+    for si, (cname, param, listy) in enumerate(subjects):
+        for label, build in forms + (large if si < 4 else []):
+            if si >= 4 and not ctx.thorough and (len(label) + si) % 4:
+                continue                # the command classes' own Data parameters: a quarter of the forms each (rotating), all in the thorough tier
+            value, owners = unpack(build())
+            raw = [value, value] if listy else value
+            watched = [value] + owners
+            before = [array_form(x) for x in watched]
+            state = program_state(program)
+            desc = {"parameter": cname, "raw": "%s%s: %s" % ("a list holding twice " if listy else "", label, repr(value)[:100]), "form_before": before[0]}
+            r1 = call_clean(param, raw, program)
+            r2 = call_clean(param, raw, program)
+            ctx.case("data-form %s %s" % (cname, label), sample=None)
+            ctx.count("data_form_cases")
+            after = [array_form(x) for x in watched]
+            for k, (b, a) in enumerate(zip(before, after)):
+                if b != a:
+                    ctx.fail("%s.clean altered %s (%s): %s" % (cname, "its raw argument" if k == 0 else "the array its raw argument is a part / view of", label, form_diff(b, a)), dict(desc, form_after=a))
+                    break
+            if program_state(program) != state:
+                ctx.fail("%s.clean(<%s>) changed the program" % (cname, label), desc)
+            for r in (r1, r2):
+                got = r[1] if r[0] == "ok" else None
+                items = (got if isinstance(got, list) and len(got) == 2 else [None, None]) if listy else [got]
+                if r[0] != "ok":
+                    ctx.fail("%s.clean(<%s>) raised %s: a data array is a value of the Data kind" % (cname, label, r[1]), dict(desc, error=repr(r[1:])[:200]))
+                    break
+                bad = next((g for g in items if not (g is value or (isinstance(g, numpy.ndarray) and same_form(array_form(g), before[0], identity=False)))), "none")
+                if not isinstance(bad, str):
+                    ctx.fail("%s.clean(<%s>) returned %s: an already clean value does not come back unchanged (%s)" % (
+                        cname, label, repr(bad)[:80], form_diff(before[0], array_form(bad)) if isinstance(bad, numpy.ndarray) else type(bad).__name__), desc)
+                    break
+                ctx.count("data_form_identical" if all(g is value for g in items) else "data_form_equal_copy")
+            if r1[0] == "ok":
+                r3 = call_clean(param, r1[1], program)
+                if r3[0] != "ok" or [array_form(x) for x in watched] != before:
+                    ctx.fail("%s: cleaning the cleaned value (%s) %s" % (cname, label, "raised " + str(r3[1]) if r3[0] != "ok" else "altered it: " + form_diff(before[0], array_form(value))), desc)
+    # --- the stored result of a finished producer
+    rparams = [("Result(Data)", P.ResultParameter(P.DataParameter()), False, None), ("Result(Data,nonfuzzy)", P.ResultParameter(P.DataParameter(), is_fuzzy=False), False, False),
+               ("Result(Data,fuzzy)", P.ResultParameter(P.DataParameter(), is_fuzzy=True), False, True), ("Result", P.ResultParameter(), False, None),
+               ("List(Result(Data))", P.ListParameter(P.ResultParameter(P.DataParameter())), True, None), ("Peek.In", lib.Peek.inputs["In"], False, None), ("Peek.More", lib.Peek.inputs["More"], True, None)]
+    for label, build in forms + large:
+        islarge = any(label == l for l, _ in large)
+        value, owners = unpack(build())
+        lib.HOLD.clear()
+        lib.HOLD["Src"] = lib.HOLD["FSrc"] = value
+        p = Program(libraries=(FORMS_LIB,))
+        p.add_command(lib.Held, "Src", {})
+        p.add_command(lib.HeldFuzzy, "FSrc", {})
+        p.add_command(lib.Peek, "T1", {"In": "Src"})
+        p.add_command(lib.Peek, "T2", {"In": "Src", "More": ["Src", "FSrc", "Src"]})
+        watched = [value] + owners
+        before = [array_form(x) for x in watched]
+        desc = {"program": "Src = Held(); FSrc = HeldFuzzy(); T1 = Peek(In = Src); T2 = Peek(In = Src, More = [Src, FSrc, Src])", "held array": "%s: %s" % (label, repr(value)[:100]), "form_before": before[0]}
+        try:
+            p.commands["T1"].result             # runs Src and T1; FSrc on its own
+            p.commands["FSrc"].result
+        except Exception as e:
+            ctx.fail("a model whose producer hands out an array (%s) fails: %s" % (label, progrun.classify(e)), desc)
+            continue
+        src, fsrc = p.commands["Src"], p.commands["FSrc"]
+
+        def verdict(what):
+            after = [array_form(x) for x in watched]
+            if src._result is not value or fsrc._result is not value or not src.is_finished:
+                ctx.fail("%s replaced the stored result of a finished producer (%s)" % (what, label), desc)
+                return False
+            for k, (b, a) in enumerate(zip(before, after)):
+                if b != a:
+                    ctx.fail("%s altered %s (%s): %s" % (what, "the stored result of the finished producer" if k == 0 else "the array the producer's result is a part / view of", label, form_diff(b, a)), dict(desc, form_after=a))
+                    return False
+            return True
+        if not verdict("running the producer and its first consumer"):
+            continue            # (what a body or run() does with a result is not cleaning: only a broken scenario ends here)
+        ok = True
+        for cname, param, listy, fuzzy in (rparams if not islarge else rparams[:1]):
+            for ref in (("Src", src) if fuzzy is not True else ()) + (("FSrc", fsrc) if fuzzy is not False else ()):
+                raw = [ref, ref] if listy else ref
+                r = call_clean(param, raw, p)
+                ctx.case("data-form-result %s %s %r" % (cname, label, type(ref).__name__), sample=None)
+                ctx.count("data_form_result_cases")
+                if r[0] != "ok":
+                    ctx.fail("%s.clean(%s) raised %s although the finished producer holds a data array (%s)" % (cname, "the producer's name" if isinstance(ref, str) else "the producer", r[1], label), dict(desc, parameter=cname))
+                    ok = False
+                ok = ok and verdict("%s.clean(%s)" % (cname, "the finished producer's name" if isinstance(ref, str) else "the finished producer"))
+                if not ok:
+                    break
+            if not ok:
+                break
+        if not ok:
+            continue
+        # Program.run validates T2's arguments while Src is finished, then runs T2 (which only looks)
+        try:
+            p.run()
+            outcome = "ok"
+        except Exception as e:
+            outcome = progrun.classify(e)
+        ctx.case("data-form-run %s" % label, sample=None)
+        ctx.count("data_form_run_cases")
+        if outcome != "ok":
+            ctx.fail("Program.run with a second consumer of a finished producer (%s) fails: %s" % (label, outcome), desc)
+        elif verdict("Program.run (validating the second consumer of a finished producer)") and p.commands["T2"].result != 4 * value.size:
+            ctx.fail("the second consumer saw %r cells, the producer holds %d" % (p.commands["T2"].result, value.size), desc)
+    lib.HOLD.clear()
+
+
+# ---------------------------------------------------------------- must-exist paths: judged at every cleaning
+
+def path_subjects():
+    """must-exist path parameters: fresh ones, and the objects the command classes carry (shared by every program of the process)"""
+    from mpilot import params as P
+    from mpilot.commands import Command
+    import mpilot.libraries.eems.csv.io, mpilot.libraries.eems.netcdf.io       # noqa
+    prog.testlib()
+    out = [("Path(must_exist)", P.PathParameter(must_exist=True), False), ("List(Path(must_exist))", P.ListParameter(P.PathParameter(must_exist=True)), True)]
+    for info in sorted(Command.get_commands(), key=lambda i: (i.module, i.command.__name__)):
+        for n, q in info.command.inputs.items():
+            listy = type(q) is P.ListParameter
+            item = q.value_type if listy else q
+            if type(item) is P.PathParameter and item.must_exist and not any(q is s[1] for s in out):
+                out.append(("%s.%s of %s" % (info.command.name, n, info.module), q, listy))
+    return out
+
+
+def clean_path(param, listy, raw, program):
+    from mpilot.exceptions import MPilotError
+    try:
+        got = param.clean([raw] if listy else raw, program, 23)
+        return ("ok", got[0] if listy and isinstance(got, list) and len(got) == 1 else got)
+    except MPilotError as e:
+        return ("mp", type(e).__name__, getattr(e, "path", None), getattr(e, "lineno", None))
+    except Exception as e:
+        return ("raw", type(e).__name__, str(e)[:80], None)
+
+
+def path_histories(ctx):
+    """a path that must exist is judged against the disk - and, under a relative working directory, the current directory - as they are when it is cleaned:
+    on ONE parameter object (a fresh one, and each one a command class carries) the same raw values are cleaned while files are written, removed, renamed,
+    links left dangling, the current directory changed, for programs with different working directories.  Every single answer is the resolved path when
+    something exists there at that moment and PathDoesNotExist naming that path otherwise - whatever was cleaned before"""
+    from mpilot.program import Program
+    rng = ctx.rng
+    start = os.getcwd()
+    root = os.path.realpath(common.tmpdir("mpv_c20p_"))
+    here, there = os.path.join(root, "here"), os.path.join(root, "there")
+    places = [os.path.join(root, "w1"), os.path.join(root, "w2"), os.path.join(here, "data"), os.path.join(there, "data"), here, there]
+    for d in places:
+        os.makedirs(d, exist_ok=True)
+    programs = [("absolute working directory", Program(libraries=(prog.TESTLIB,), working_dir=places[0])), ("another absolute working directory", Program(libraries=(prog.TESTLIB,), working_dir=places[1])),
+                ("relative working directory", Program(libraries=(prog.TESTLIB,), working_dir="data")), ("empty working directory", Program(libraries=(prog.TESTLIB,), working_dir="")),
+                ("no working directory", Program(libraries=(prog.TESTLIB,), working_dir=None))]
+    names = ["in.csv", "t/deep.nc", "7", "link.csv"]
+
+    def toggle(place, name, log):
+        path = os.path.join(place, name)
+        if name == "link.csv":          # a link to target.csv in the same place: the link stays, its target comes and goes
+            if not os.path.lexists(path):
+                os.symlink("target.csv", path)
+            path = os.path.join(place, "target.csv")
+        if os.path.exists(path):
+            os.remove(path)
+            log.append("remove " + path)
+        else:
+            os.makedirs(os.path.dirname(path), exist_ok=True)
+            with open(path, "w") as f:
+                f.write("a,b\n1,2\n")
+            log.append("write " + path)
+
+    def wipe():
+        for d in places:
+            for dp, dn, fn in os.walk(d):
+                for f in fn:
+                    os.remove(os.path.join(dp, f))
+
+    def clean_step(cname, param, listy, pi, raw, log):
+        plabel, program = programs[pi]
+        wd = program.working_dir
+        text = str(raw)
+        resolved = text if os.path.isabs(text) else None if wd is None else os.path.join(wd, text)
+        there_now = resolved is not None and os.path.exists(resolved)
+        r = clean_path(param, listy, raw, program)
+        log.append("clean %r for the program with %s %r (current directory %s) -> %s" % (raw, plabel, wd, os.getcwd(), r[:3]))
+        ctx.case("path-history %s %s" % (cname, len(log)), nontrivial=False, sample=None)
+        ctx.count("path_history_cleanings")
+        desc = {"parameter": cname, "history": list(log), "raw": repr(raw), "working_dir": wd, "current_dir": os.getcwd(), "resolved": resolved, "exists_now": there_now}
+        if resolved is None:
+            if r[:2] != ("mp", "InvalidRelativePath"):
+                ctx.fail("%s.clean(%r) without a working directory gave %r instead of InvalidRelativePath" % (cname, raw, r[:2]), desc)
+        elif there_now:
+            if r != ("ok", resolved):
+                ctx.fail("%s.clean(%r) gave %r although %s exists at this moment (history of this parameter object in the replay)" % (cname, raw, r[:3], resolved), desc)
+        elif r[0] == "ok":
+            ctx.fail("%s.clean(%r) returned %r although nothing exists there at this moment (it did at an earlier cleaning of this parameter object)" % (cname, raw, r[1]), desc)
+        elif r[:3] != ("mp", "PathDoesNotExist", resolved) or r[3] != 23:
+            ctx.fail("%s.clean(%r): nothing exists at %s, reported %r (line %r) instead of PathDoesNotExist naming that path on the argument's line" % (cname, raw, resolved, r[:3], r[3]), desc)
+        return len(ctx.failures)
+    try:
+        for cname, param, listy in path_subjects():
+            # directed: found, removed, written again; the same relative name under two working directories; the current directory changed under a relative one
+            directed = []
+            for name in names:
+                directed.append([("cd", here), ("clean", 0, name), ("toggle", 0, name), ("clean", 0, name), ("clean", 0, os.path.join(places[0], name)), ("clean", 1, name), ("toggle", 0, name),
+                                 ("clean", 0, name), ("clean", 0, os.path.join(places[0], name)), ("clean", 4, os.path.join(places[0], name)), ("toggle", 1, name), ("clean", 1, name), ("clean", 0, name),
+                                 ("toggle", 0, name), ("clean", 0, name), ("toggle", 0, name), ("toggle", 1, name), ("clean", 0, name), ("clean", 1, name)])
+                directed.append([("cd", here), ("toggle", 2, name), ("clean", 2, name), ("cd", there), ("clean", 2, name), ("cd", here), ("clean", 2, name), ("cd", there), ("toggle", 3, name), ("clean", 2, name),
+                                 ("toggle", 3, name), ("clean", 2, name), ("toggle", 5, name), ("clean", 3, name), ("cd", here), ("clean", 3, name), ("clean", 4, name)])
+            randoms = []
+            for _ in range(ctx.budget(4, 60)):
+                h = [("cd", here)]
+                for _ in range(rng.randrange(8, 30)):
+                    x = rng.random()
+                    if x < 0.5:
+                        pi = rng.randrange(len(programs))
+                        name = rng.choice(names)
+                        raw = rng.choice([name, name, os.path.join(rng.choice(places), name)]) if name != "7" else rng.choice([7, "7"])
+                        h.append(("clean", pi, raw))
+                    elif x < 0.85:
+                        h.append(("toggle", rng.randrange(len(places)), rng.choice(names)))
+                    else:
+                        h.append(("cd", rng.choice([here, there])))
+                randoms.append(h)
+            for h in directed + randoms:
+                wipe()
+                log = []
+                n0 = len(ctx.failures)
+                for step in h:
+                    if step[0] == "cd":
+                        os.chdir(step[1])
+                        log.append("chdir " + step[1])
+                    elif step[0] == "toggle":
+                        toggle(places[step[1]], step[2], log)
+                    elif clean_step(cname, param, listy, step[1], step[2], log) > n0:
+                        break
+                ctx.count("path_histories")
+    finally:
+        os.chdir(start)
+    # the same at program level: a model read and run, its input removed (or only then written), the same text read and run again
+    from mpilot.libraries.eems.csv.io import EEMSRead       # noqa
+    src = "A = EEMSRead(\n    InFileName = input.csv,\n    InFieldName = a\n)\nB = Copy(\n    InFieldName = A\n)\n"
+    wd = places[0]
+    for first_there in (True, False, True):
+        wipe()
+        outcomes = []
+        for there_now in (first_there, not first_there, first_there):
+            if there_now:
+                with open(os.path.join(wd, "input.csv"), "w") as f:
+                    f.write("a,b\n1,2\n3,4\n")
+            elif os.path.exists(os.path.join(wd, "input.csv")):
+                os.remove(os.path.join(wd, "input.csv"))
+            p = None
+            try:
+                p = Program.from_source(src, working_dir=wd)
+                p.run()
+                outcomes.append((there_now, "ok", [n for n, c in p.commands.items() if c.is_finished]))
+            except Exception as e:
+                outcomes.append((there_now, progrun.classify(e), [n for n, c in p.commands.items() if c.is_finished] if p is not None else []))
+        ctx.case("path-history-program %r" % (first_there,), sample=None)
+        ctx.count("path_history_programs")
+        want = [(t, "ok", ["A", "B"]) if t else (t, "mp:PathDoesNotExist:2", []) for t, _, _ in outcomes]
+        if outcomes != want:
+            ctx.fail("a model naming input.csv, loaded and run three times while the file %s: outcomes (file there, outcome, commands finished) %r, expected %r" % (
+                "is there, removed, written again" if first_there else "is missing, written, removed", outcomes, want), {"source": src, "working_dir": wd, "outcomes": repr(outcomes)})
+    wipe()
+
+
 def run(ctx):
     ctx.check_proofs(["MPilot.Props.C20"])
     model = common.Model()
@@ -515,6 +966,8 @@ def run(ctx):
     program_purity(ctx)
     from_file_values(ctx)
     long_lists(ctx)
+    data_forms(ctx)
+    path_histories(ctx)
     answers = model.ask(lines)
     for line, (desc, cname, r1, r3, param), ans in zip(lines, metas, answers):
         impl = "ok" if r1[0] == "ok" else r1[0] + " " + r1[1]
